@@ -582,9 +582,9 @@ type CompoundAssignmentExpression struct {
 
 func (cae *CompoundAssignmentExpression) WriteTo(cw *CodeWriter) {
 	cae.Left.WriteTo(cw)
+	cw.WriteSpace()
 	cw.WriteLeadingComments(cae.Token.LeadingComments)
 	cw.AddMapping(cae.Token.Start)
-	cw.WriteSpace()
 	cw.WriteString(cae.Operator)
 	cw.WriteRune('=')
 	cw.WriteSpace()
